@@ -524,23 +524,46 @@ func newExec(sc *Scenario, quiet bool) *Exec {
 	}
 	x.marker, x.otherMarker = new(int), new(int)
 	root := context.WithValue(context.Background(), ctxKey{}, x.marker)
+	cause := &jobErr{i: -1} // never a job's error, never a context error
 	switch {
 	case sc.CancelKind == CancelDeadlinePast:
-		x.ctx, x.cancelFn = context.WithDeadline(root, time.Now().Add(-time.Second))
+		if sc.CauseCtx {
+			x.ctx, x.cancelFn = context.WithDeadlineCause(root, time.Now().Add(-time.Second), cause)
+		} else {
+			x.ctx, x.cancelFn = context.WithDeadline(root, time.Now().Add(-time.Second))
+		}
 		x.cancelReq.Store(1)
 		x.cancelStamp.Store(1) // done before anything else happens
 		x.clock.Store(1)
 	case sc.DeadlineUS > 0:
-		x.ctx, x.cancelFn = context.WithTimeout(root, time.Duration(sc.DeadlineUS)*time.Microsecond)
+		if sc.CauseCtx {
+			x.ctx, x.cancelFn = context.WithTimeoutCause(root, time.Duration(sc.DeadlineUS)*time.Microsecond, cause)
+		} else {
+			x.ctx, x.cancelFn = context.WithTimeout(root, time.Duration(sc.DeadlineUS)*time.Microsecond)
+		}
 		x.cancelReq.Store(1) // may expire at any time
+	case sc.CauseCtx:
+		c, cancel := context.WithCancelCause(root)
+		x.ctx, x.cancelFn = c, func() { cancel(cause) }
 	default:
 		x.ctx, x.cancelFn = context.WithCancel(root)
 	}
 	x.otherCtx = context.WithValue(context.Background(), ctxKey{}, x.otherMarker)
 	{
-		c1, cancel1 := context.WithCancel(context.WithValue(context.Background(), ctxKey{}, x.otherMarker))
-		cancel1()
-		c2, cancel2 := context.WithDeadline(context.WithValue(context.Background(), ctxKey{}, x.otherMarker), time.Now().Add(-time.Hour))
+		base := context.WithValue(context.Background(), ctxKey{}, x.otherMarker)
+		var c1, c2 context.Context
+		var cancel2 context.CancelFunc
+		if sc.CauseCtx {
+			cc, cancel1 := context.WithCancelCause(base)
+			cancel1(cause)
+			c1 = cc
+			c2, cancel2 = context.WithDeadlineCause(base, time.Now().Add(-time.Hour), cause)
+		} else {
+			cc, cancel1 := context.WithCancel(base)
+			cancel1()
+			c1 = cc
+			c2, cancel2 = context.WithDeadline(base, time.Now().Add(-time.Hour))
+		}
 		x.deadCtx = [3]context.Context{nil, c1, c2}
 		x.deadCancel = cancel2
 	}
